@@ -13,8 +13,8 @@ func init() {
 		ID: "C47",
 		Explanation: "Decides the refusal clauses of abbreviated-ID resolution, not agreement with git rev-parse on every expression: (ambiguous-abbreviation-refused) in Repository.ResolveRevision the loop over the candidates of an abbreviated object ID " +
 			"contains a rejecting return guarded by an inequality of the hashes of two commits (the commit already chosen and the one a further candidate names), so an abbreviation naming several commits is refused rather than resolved to the first; " +
-			"(minimum-abbreviation) resolveHashPrefix yields no candidate for fewer than four hex digits (git's MINIMUM_ABBREV); (id-before-ref) the candidates of the abbreviated ID are appended before the hash of a reference with the same name, " +
-			"and an unresolvable name ends in ErrReferenceNotFound; (last-digit-checked) resolveHashPrefix returns the candidates found for the whole bytes of a prefix unfiltered only on paths where the prefix is known to have an even number of digits, so the last digit of an odd-length abbreviation is always compared; the revision parser package keeps no package-level state. Not decided: ~, ^, ^{/regex} navigation, reflog syntax, disambiguation by object type beyond 'names a commit'.",
+			"(minimum-abbreviation) resolveHashPrefix yields no candidate for fewer than four hex digits (git's MINIMUM_ABBREV); (name-lookup-order) git's order full ID, reference, abbreviated ID: with the name not a full ID and a reference of that name found, no path reaches the append of the abbreviation's candidates without the reference's hash appended before (found and fixed: a branch called `311188e` lost to the commit 311188e…), with a full ID the ID comes first, " +
+			"and an unresolvable name ends in ErrReferenceNotFound; (regex-search-youngest-first) `^{/regex}` searches the history with the committer-time iterator, so the youngest matching commit wins as in git (found and fixed: preorder took the first match along the first-parent chain); (last-digit-checked) resolveHashPrefix returns the candidates found for the whole bytes of a prefix unfiltered only on paths where the prefix is known to have an even number of digits, so the last digit of an odd-length abbreviation is always compared; the revision parser package keeps no package-level state. Not decided: ~, ^, ^{/regex} navigation, reflog syntax, disambiguation by object type beyond 'names a commit'.",
 		Assumptions: []string{},
 		Run:         runC47,
 	})
@@ -155,8 +155,65 @@ func runC47(c *Ctx) {
 	}
 	c.Floor(r2, 1)
 
-	const r3 = "id-before-ref"
-	c.Check(prefixAppend.IsValid() && refAppend.IsValid() && prefixAppend < refAppend, r3, rr.Name()+":order", rr.Decl.Pos(), "the abbreviated ID's candidates are appended before the hash of a reference of the same name")
+	// git looks a name up as a full object ID first, then as a reference, and only then as an abbreviated ID
+	// (get_oid_basic before get_short_oid): a branch called `311188e` wins over the commit 311188e…, a full ID wins
+	// over a branch named like it. Scenario evaluation over ResolveRevision's CFG: with the name not a full ID and the
+	// reference found, no path reaches the append of the prefix candidates without passing an append of the reference's
+	// hash; with the name a full ID, no append of the reference's hash is reached before the prefix append.
+	const r3 = "name-lookup-order"
+	{
+		_ = refAppend
+		f := p.FlowOf(rr)
+		var refErr types.Object
+		ast.Inspect(rr.Decl.Body, func(n ast.Node) bool {
+			as, ok := n.(*ast.AssignStmt)
+			if !ok || len(as.Lhs) != 2 || len(as.Rhs) != 1 {
+				return true
+			}
+			if call, ok := unparen(as.Rhs[0]).(*ast.CallExpr); ok {
+				if fn := Callee(info, call); fn != nil && fn.Name() == "expandRef" {
+					refErr = objOf(info, as.Lhs[1])
+				}
+			}
+			return true
+		})
+		isCandAppend := func(n ast.Node) (*ast.AssignStmt, bool) {
+			as, ok := n.(*ast.AssignStmt)
+			if !ok || len(as.Lhs) != 1 || len(as.Rhs) != 1 || objOf(info, as.Lhs[0]) != cands || !nodeHasBuiltin(info, as.Rhs[0], "append") {
+				return nil, false
+			}
+			return as, true
+		}
+		isPrefixAppend := func(n ast.Node) bool {
+			as, ok := isCandAppend(n)
+			return ok && nodeHasCall(as.Rhs[0], false, func(call *ast.CallExpr) bool { return Callee(info, call) == rp.Obj }) != nil
+		}
+		isRefAppend := func(n ast.Node) bool {
+			as, ok := isCandAppend(n)
+			return ok && !isPrefixAppend(n) && nodeHasCall(as.Rhs[0], false, func(call *ast.CallExpr) bool {
+				fn := Callee(info, call)
+				return fn != nil && fn.Name() == "Hash"
+			}) != nil
+		}
+		if refErr == nil || len(f.Locs(isRefAppend)) == 0 || len(f.Locs(isPrefixAppend)) == 0 {
+			c.Unresolved(r3, rr.Name()+":candidates", rr.Decl.Pos(), "the reference lookup (expandRef) or the two kinds of appends to the candidate list were not found")
+		} else {
+			scenario := func(fullID int) *condAssume {
+				return &condAssume{info: info, nilv: map[types.Object]bool{refErr: true}, call: func(call *ast.CallExpr) int {
+					if fn := Callee(info, call); fn != nil && fn.Name() == "IsHash" && fn.Pkg() != nil && shortPkg(fn.Pkg().Path()) == "plumbing" {
+						return fullID
+					}
+					return -1
+				}}
+			}
+			hA := f.Search(SearchOpts{Starts: []Loc{f.Entry()}, Sink: isPrefixAppend, Barrier: isRefAppend, BlockEdge: scenario(0).blockEdge()})
+			c.Check(hA == nil, r3, rr.Name()+":reference-before-abbreviation", orPos(hitPos(hA), rr.Decl.Pos()), orStr(ifStr(hA != nil, "for a name that is not a full object ID and that a reference carries, the abbreviated-ID candidates are put before the reference: `311188e` resolves to the commit 311188e… although a branch is called so (git rev-parse gives the branch, with a warning)"),
+				"a reference is looked up before the name is taken for an abbreviated ID"))
+			hB := f.Search(SearchOpts{Starts: []Loc{f.Entry()}, Sink: isRefAppend, Barrier: isPrefixAppend, BlockEdge: scenario(1).blockEdge()})
+			c.Check(hB == nil, r3, rr.Name()+":full-id-before-reference", orPos(hitPos(hB), rr.Decl.Pos()), orStr(ifStr(hB != nil, "for a full object ID the reference of the same name is put before the ID: git gives the object"),
+				"a full object ID wins over a reference of the same name"))
+		}
+	}
 	notFound := p.lookupObj("plumbing", "ErrReferenceNotFound")
 	usesNF := false
 	ast.Inspect(rr.Decl.Body, func(n ast.Node) bool {
@@ -167,6 +224,38 @@ func runC47(c *Ctx) {
 	})
 	c.Check(usesNF, r3, rr.Name()+":unresolvable", rr.Decl.Pos(), "a name that resolves to nothing ends in ErrReferenceNotFound")
 	c.Floor(r3, 2)
+
+	// `<rev>^{/regex}` is the youngest matching commit reachable from <rev> (git pops candidates by commit date).
+	const r3b = "regex-search-youngest-first"
+	{
+		var ctor *types.Func
+		var at token.Pos
+		ast.Inspect(rr.Decl.Body, func(n ast.Node) bool {
+			cc, ok := n.(*ast.CaseClause)
+			if !ok || len(cc.List) != 1 {
+				return true
+			}
+			if tv := info.Types[cc.List[0]]; tv.Type == nil || !strings.HasSuffix(tv.Type.String(), "revision.CaretReg") {
+				return true
+			}
+			for _, st := range cc.Body {
+				walkCalls(st, false, func(call *ast.CallExpr) {
+					fn := Callee(info, call)
+					if fn != nil && fn.Pkg() != nil && shortPkg(fn.Pkg().Path()) == objShort && strings.HasPrefix(fn.Name(), "NewCommit") && ctor == nil {
+						ctor, at = fn, call.Pos()
+					}
+				})
+			}
+			return false
+		})
+		if ctor == nil {
+			c.Unresolved(r3b, rr.Name()+":regex-case", rr.Decl.Pos(), "the history iterator of the ^{/regex} case was not found")
+		} else {
+			ok := ctor.Name() == "NewCommitIterCTime"
+			c.Check(ok, r3b, rr.Name()+":regex-case", at, orStr(ifStr(!ok, "the history is searched with "+ctor.Name()+", not in committer-time order: where two sides of a merge both hold a match, the one found first is not the youngest, git rev-parse gives the youngest"),
+				"the history is searched youngest commit first"))
+		}
+	}
 
 	// The store can only be asked for whole bytes, so for an odd number of digits the candidates match the prefix minus
 	// its last digit. They may be returned as they come only where the prefix is known to have an even length; on
